@@ -36,6 +36,19 @@ def audit(ctx):
         problems.append('unique table / cache / arena push touched outside impl InternerGuard')
     if 'INTERNER.lock()' in re.sub(r'//.*', '', guard_body):
         problems.append('INTERNER.lock() called while a guard is held (re-entrancy => deadlock)')
+    # 1b. no other shared mutable state in the marker code: the only `static` is the interner, no atomics / cells / thread-locals / other locks
+    #     (state that several threads can touch outside the one mutex is outside the atomicity assumption of the theorem)
+    for name, text in files.items():
+        code = re.sub(r'//.*', '', text)
+        code = code.split('#[cfg(test)]')[0]
+        for mm in re.finditer(r'\b(static\s+(mut\s+)?\w+|Atomic\w+|thread_local!|RwLock|RefCell|\bCell<|OnceCell|OnceLock|UnsafeCell|static\s+mut)\b', code):
+            tok = mm.group(0)
+            if re.match(r'static\s+INTERNER$', tok) and name == 'algebra.rs':
+                continue
+            if name == 'lib.rs':
+                continue
+            problems.append('shared mutable state outside the interner mutex in %s: `%s`' % (name, tok))
+            break
     # 2. the state sits behind one Mutex; lock() is the only way in
     if not re.search(r'state:\s*Mutex<InternerState>', alg):
         problems.append('InternerState is not behind a Mutex')
@@ -75,13 +88,14 @@ def run(ctx):
     ctx.extra['rule'] = ('(1) audit of the lock discipline assumed by the theorem (single Mutex, state touched only in InternerGuard, no re-entrant lock, arena '
                          'reads through InternerShared::node); (2) stress: 8-16 threads race, from one barrier, to parse the same fresh markers in rotated orders, '
                          'combine, simplify, render, evaluate and compare them; all threads must produce == markers and identical observations, equal to a '
-                         'single-threaded fresh process; watchdog for deadlock, any panic counts; (3) hammer: and/or of 16 marker pairs computed once sequentially, then recomputed 60 000-400 000 times by each of 8 threads at once, every result compared with the sequential one; this part is supporting test evidence, not proof. '
+                         'single-threaded fresh process; watchdog for deadlock, any panic counts; (3) hammer: and / or / is_disjoint of 17 marker pairs (one nested 85 parentheses deep) and re-parses of their texts computed once sequentially, then recomputed 100 000-600 000 times by each of 8 threads at once, and 2 500-40 000 times while one thread keeps the interner busy with a large is_disjoint (a 16-fold conjunction of disjunctions), every result compared with the sequential one; the audit also requires that src/marker has no shared mutable state besides the interner (no other static, atomics, cells, thread-locals, locks); this part is supporting test evidence, not proof. '
                          'non-trivial = distinct (round, marker text)')
     probs = audit(ctx)
     ctx.extra['lock_audit'] = probs or 'ok'
     ctx.oracle_cases += 1
     for p in probs:
-        ctx.failure('lock discipline audit: ' + p, {'audit': p})
+        ctx.disagreement('lock discipline of src/marker ~ the atomicity assumption of C15_sched_indep (textual audit)', p,
+                         'one mutex around all shared state; no other shared mutable state', p)
     rounds = 6 if quick else 40
     for rd in range(rounds):
         texts = []
@@ -122,11 +136,26 @@ def run(ctx):
     # (3) hammer: results computed once sequentially, then recomputed by all threads at once, many times, over different pairs:
     # a result that depends on what another thread is doing at the same moment (unsynchronised memo, torn state) shows up as a mismatch
     for rd in range(2 if quick else 10):
-        texts = ["os_name == 'posix%d'" % rd, "sys_platform == 'linux'", "os_name == 'nt'", "sys_platform == 'win32'", "python_full_version >= '3.8'",
-                 "platform_machine == 'x86_64'", "python_full_version < '3.8'", "platform_machine == 'arm64'", "extra == 'a%d'" % rd, "'lin' in sys_platform"]
+        # neighbours alternate between disjoint and overlapping pairs, so that a wrong `false` as well as a wrong `true` of is_disjoint shows
+        texts = ["os_name == 'posix%d'" % rd, "os_name == 'nt'", "sys_platform == 'win32' and os_name == 'nt'", "sys_platform == 'linux'",
+                 "python_full_version >= '3.8' and sys_platform == 'linux'", "python_full_version < '3.8' and sys_platform == 'linux'",
+                 "platform_machine == 'arm64'", "platform_machine == 'x86_64'", "extra == 'a%d'" % rd, "extra != 'a%d' and 'lin' in sys_platform" % rd, "'lin' in sys_platform"]
         texts += [markers.gen_marker(ctx.rng, 1) for _ in range(6)]
-        iters = 60000 if quick else 400000
-        r = fw.batch(h, [['hammer', '8', str(iters), '120000', [S(t) for t in texts]]], timeout=300)[0]
+        # deep nesting and a wide conjunction of disjunctions: per-call state (depth counters, work budgets) must not be shared between threads
+        deep = "python_version >= '3.%d' and os_name == 'posix'" % rd
+        for lvl in range(85):
+            deep = "(extra == 'e%d' or %s)" % (lvl, deep)
+        texts.append(deep)
+        wide = ' and '.join("('a%02d' in os_name or 'b%02d' in os_name)" % (i, i) for i in range(16))
+        heavy = [S(wide + " and extra == 'e'"), S(wide + " and extra != 'e'")]
+        # phase A: all threads on the small operations; phase B: one thread keeps the interner busy with the large check
+        iters = 100000 if quick else 600000
+        r = fw.batch(h, [['hammer', '8', str(iters), '240000', [S(t) for t in texts], []]], timeout=600)[0]
+        rb = fw.batch(h, [['hammer', '8', str(2500 if quick else 40000), '400000', [S(t) for t in texts], heavy]], timeout=900)[0]
+        if r[0] == 'ok' and rb[0] == 'ok':
+            r = ['ok', str(int(r[1]) + int(rb[1])), str(int(r[2]) + int(rb[2])), r[3] if r[3] != 'none' else rb[3]]
+        elif rb[0] != 'ok':
+            r = rb
         ctx.evaluations += 1
         ctx.oracle_cases += 1
         how = {'hammer-round': rd, 'threads': 8, 'iterations': iters, 'texts': texts}
